@@ -366,11 +366,44 @@ func textDelegation(r *rand.Rand) []byte {
 	return b
 }
 
+// textDelegationOfLen: a delegation whose archive is exactly `target` bytes long (the nonce is stretched)
+func textDelegationOfLen(target int) []byte {
+	pools()
+	iss, aud := edPool[0], edPool[1]
+	nl := target - 400
+	for try := 0; try < 6 && nl > 0; try++ {
+		d, err := delegation.Delegate(iss, aud, []ucan.Capability[ucan.NoCaveats]{ucan.NewCapability("store/add", iss.DID().String(), ucan.NoCaveats{})},
+			delegation.WithNonce(strings.Repeat("z", nl)), delegation.WithExpiration(farFuture+nowUnix()))
+		if err != nil {
+			return nil
+		}
+		b, _ := io.ReadAll(d.Archive())
+		if len(b) == target {
+			return b
+		}
+		nl += target - len(b)
+	}
+	return nil
+}
+
 func genTextC13(cfg Config, emit Emit) error {
 	r := cfg.Rng
 	n := 60
 	if cfg.Thorough() {
 		n = 1500
+	}
+	// archive lengths on both sides of the boundaries where the varint of the digest length grows
+	// (2^14; thorough also 2^21), every length in a window around them
+	bounds := []int{1 << 14}
+	if cfg.Thorough() {
+		bounds = append(bounds, 1<<21)
+	}
+	for _, bd := range bounds {
+		for l := bd - 8; l <= bd+6; l++ {
+			if b := textDelegationOfLen(l); b != nil {
+				emit("dlgfmt", []string{hexTok(b)}, fmt.Sprintf("dlgfmt-len-2^%d%+d", map[int]int{1 << 14: 14, 1 << 21: 21}[bd], l-bd), true)
+			}
+		}
 	}
 	for i := 0; i < n; i++ {
 		if b := textDelegation(r); b != nil {
